@@ -199,6 +199,89 @@ def gen(ctx):
             add("ext eku %d %s" % (crit, l), "ext:eku:crit%d:n%s" % (crit, "<=7" if l.count(".") < 7 else ">7"))
         for v in (-1, 0, 1, 255, 256):
             add("ext iap %d %d" % (crit, v), "ext:iap:crit%d:%s" % (crit, "bad" if v < 0 else "ok"))
+
+    # --- wave 2: two-pass encoders across the DER length-of-length boundaries -------------------------
+    # every extension builder x content lengths around 127/128, 255/256 (and 65535/65536 where the API allows)
+    BL = list(range(105, 138)) + list(range(235, 263))
+    def bclass(n):
+        for lo, hi, nm in ((100, 140, "~128"), (230, 265, "~256"), (65000, 66000, "~65536")):
+            if lo <= n <= hi:
+                return nm + ("-" if n < (128 if nm == "~128" else 256 if nm == "~256" else 65536) - 4 else ("+" if n > (128 if nm == "~128" else 256 if nm == "~256" else 65536) else "@"))
+        return "far"
+    okcrit = {"cp": (-1, 1), "pm": (1,), "san": (-1, 0, 1), "ian": (-1, 0), "sda": (-1,), "fcrl": (-1, 1)}
+    for kind, crits in okcrit.items():
+        for L in BL + [1, 2, 65520, 65529, 65530, 65531, 65535, 65536, 65537]:
+            for cr in (crits if L < 1000 else crits[:1]):
+                add("extlen %s %d %s" % (kind, cr, hexs(r.bytes(L))), "extlen:%s:crit%d:%s" % (kind, cr, bclass(L)))
+        add("extlen %s %d -" % (kind, crits[0]), "extlen:%s:empty" % kind)
+        bad = 0 if kind == "pm" else 1
+        if bad not in crits:
+            add("extlen %s %d %s" % (kind, bad, hexs(r.bytes(127))), "extlen:%s:criticality-refused-by-check" % kind)
+    for L in range(14, 68):
+        add("extlen ski -1 %s" % hexs(r.bytes(L)), "extlen:ski:len%s" % ("ok" if 16 <= L <= 64 else "bad"))
+    for L in BL + [1, 400]:
+        add("extlen aki %d %s" % (r.choice([-1, 0]), hexs(r.bytes(L))), "extlen:aki:%s" % bclass(L))
+        add("extlen nc %d %s" % (r.choice([-1, 1]), hexs(tlv(0x30, tlv(0x82, bytes(r.choice(b"abcdefgh.") for _ in range(max(1, L - 6))))))), "extlen:nc:%s" % bclass(L))
+    for L in list(range(90, 140)) + [1, 180, 200]:
+        uri = b"http://" + bytes(r.choice(b"abcdefghijklmnopqrstuvwxyz./") for _ in range(L - 7)) if L > 7 else b"h" * L
+        add("extlen crldp %d %s" % (r.choice([-1, 1]), hexs(uri)), "extlen:crldp:%s" % bclass(L))
+        add("extlen aia %d %s" % (r.choice([-1, 0]), hexs(uri)), "extlen:aia:%s" % bclass(L))
+
+    def rdn(v):
+        return tlv(0x31, tlv(0x30, bytes.fromhex(OID["O"]) + tlv(0x0c, bytes(r.choice(b"abcdefghijklmnopqrstuvwxyz") for _ in range(v)))))
+    def name_of_len(L):
+        """valid RDNSequence content of exactly L bytes (values <= 64 bytes), or None"""
+        out = b""
+        while L - len(out) > 75 + 12:
+            out += rdn(50)
+        rem = L - len(out)
+        if rem > 75:                       # two more RDNs
+            a = rem // 2; out += rdn(a - 11); rem = L - len(out)
+        if rem < 12:
+            return None
+        out += rdn(rem - 11)
+        return out if len(out) == L else None
+    def unk_ext_of_len(L):
+        """one non-critical extension with an unknown OID, whole Extension TLV exactly L bytes, or None"""
+        for p in range(max(0, L - 30), L):
+            e = tlv(0x30, bytes.fromhex("06052a03040506") + tlv(0x04, bytes(p)))
+            if len(e) == L:
+                return e
+        return None
+    KU = bytes.fromhex("300e0603551d0f0101ff040403020780")
+    base = lambda issuer, subject, iu, su, ex: cert_line(2, bytes([1, 2, 3, 4]), issuer, NOW - 1000, NOW + 100000, subject, 2, iu, su, ex, 1)
+    for L in BL:
+        nm = name_of_len(L)
+        if nm:
+            add("certck " + base(nm, EE, b"", b"", KU), "certck:issuer-len:%s" % bclass(L))
+            add("certck " + base(CA, nm, b"", b"", KU), "certck:subject-len:%s" % bclass(L))
+        add("certck " + base(CA, EE, r.bytes(L), b"", KU), "certck:issuer-uid-len:%s" % bclass(L))
+        add("certck " + base(CA, EE, b"", r.bytes(L), KU), "certck:subject-uid-len:%s" % bclass(L))
+        e = unk_ext_of_len(L - len(KU))
+        if e:
+            add("certck " + base(CA, EE, b"", b"", e + KU), "certck:exts-len:%s" % bclass(L))
+            add("certck " + base(CA, EE, b"", b"", KU + e), "certck:exts-len:%s" % bclass(L))
+    # whole TBS length crossing 255/256 and 65535/65536 (the outer SEQUENCE lengths follow)
+    small = tlv(0x31, tlv(0x30, bytes.fromhex(OID["CN"]) + tlv(0x0c, b"a")))
+    for p in range(0, 70):
+        e = tlv(0x30, bytes.fromhex("06052a03040506") + tlv(0x04, bytes(p + 1)))
+        add("certck " + cert_line(2, b"\x05", small, NOW - 1000, NOW + 100000, small, 2, b"", b"", e + KU, 1), "certck:tbs-len:~256")
+    for p in range(65250, 65330, 2 if not thorough else 1):
+        e = tlv(0x30, bytes.fromhex("06052a03040506") + tlv(0x04, bytes(p)))
+        add("certck " + cert_line(2, b"\x05", small, NOW - 1000, NOW + 100000, small, 2, b"", b"", e + KU, 1), "certck:tbs-len:~65536")
+    # request attributes and revoked lists at the same boundaries
+    for L in BL:
+        add("req 0 %s 2 %s" % (hexs(EE), hexs(tlv(0x30, bytes(L - 3)) if L < 131 else tlv(0x30, bytes(L - 4)))), "req:attrs-len:%s" % bclass(L))
+        n1 = (L - 24) // 22
+        if n1 >= 0:
+            es = ["%02x:%d" % (j + 1, 1600000000 + j) for j in range(n1)]
+            last = L - 22 * n1                      # entry of 22 + k bytes: serial of 1 + k bytes
+            es.append("%s:%d" % ((bytes([0x11]) * (1 + last - 22)).hex(), 1600001000))
+            add("crl 1 %s %d %d %s - 1" % (hexs(CA), NOW, NOW + 86400, ",".join(es)), "crl:revoked-len:%s" % bclass(L))
+    nbig = 65536 // 22
+    for n in (nbig - 2, nbig - 1, nbig, nbig + 1):
+        es = ["%04x:%d" % (j + 0x1000, 1600000000) for j in range(n)]
+        add("crl 1 %s %d %d %s - 1" % (hexs(CA), NOW, NOW + 86400, ",".join(es)), "crl:revoked-len:~65536")
     # --- every single-bit modification of an issued object must fail verification
     step = 3 if not thorough else 1
     flips = []
